@@ -412,6 +412,20 @@ KINDS = {
         st.fixed_dictionaries({'k': st.just('rr'), 'afi': vs.u16, 'safi': vs.u8, 'res': vs.u8, 'type': st.sampled_from([5, 128])}),
         st.just({'k': 'keepalive'})), check_simple),
 }
+
+
+def _vpn_stack(v6):
+    # construct-only: VPN routes with a label stack of 2-3 labels (the decoder reads one label per VPN route, so C07 does
+    # not use them; what is written must still be structurally valid)
+    route = st.fixed_dictionaries({'rd': vs.rd_text(), 'prefix': vs.prefix6(c07.v6len) if v6 else vs.prefix4(c07.v4len),
+                                   'label': st.lists(vs.label, min_size=2, max_size=3)})
+    nh = {'rd': st.just('0:0'), 'str': vs.ipv6_global if v6 else vs.ipv4_host}
+    return st.fixed_dictionaries({'afi_safi': st.just([2 if v6 else 1, 128]), 'nexthop': st.fixed_dictionaries(nh),
+                                  'nlri': st.lists(route, min_size=1, max_size=3)})
+
+
+KINDS['vpn4-label-stack'] = (lambda: _vpn_stack(False).map(lambda v: {'facet': 'vpn4-reach', 'value': v}), check_c07)
+KINDS['vpn6-label-stack'] = (lambda: _vpn_stack(True).map(lambda v: {'facet': 'vpn6-reach', 'value': v}), check_c07)
 for _f in c07.FACETS:
     KINDS['c07:' + _f] = ((lambda f: (lambda: c07.facet_strategy(f).map(lambda v: {'facet': f, 'value': v})))(_f), check_c07)
 
